@@ -37,10 +37,13 @@ META = {
             "parameters (none an axiom): CodeLaws (generic heap: code objects immutable and accepted by the bytecode "
             "verifier, continuations are snapshots of WF states; checked by C04's bytecode-verifier stream) for the "
             "WF-stack theorems; for step_live_congruence / the run theorems additionally LiveLaws (CLOSURE's and ENTER's "
-            "environment construction read live stack cells only), BpLive (a BasePointerOffset SOURCE operand designates a "
-            "cell <= sp: the bytecode verifier does not look at source offsets, so WF-stack alone does not give it — a "
-            "verified code object with PUSH bp+100 would read a stale cell; compile.rs only emits offsets of arguments; same "
-            "side condition as the heap-simulation lemmas, checked on every real state of C03's heap-simulation stream by Driver/SimGood 'bp-live'), and the capacity "
+            "environment construction read live stack cells only — a THEOREM for the concrete heap: concreteLiveLaws), "
+            "BpLive (a BasePointerOffset SOURCE operand designates a cell <= sp) — since round 4 a THEOREM from WF-stack "
+            "(bpLive_of_wfs): the bytecode verifier now rejects such an operand unless in procedure code with offset <= 0 "
+            "(Verify.bpSrcOk; 0 rejects on every real code object), so step_live_congruence_verified / "
+            "invoke_run_same_result_verified carry only FitOK; invoke_run_same_result_concrete is the statement on the "
+            "concrete heap (gops ext = concreteOps ext with the callee guard, see C04's note: hypotheses ExtCodeLaws ext, "
+            "WFS incl. CInv of the heap at the invocation, FitOK); and the capacity "
             "clause of SideOK / hfit: when a continuation is invoked its stack copy fits the current capacity — stands for "
             "'Stack never shrinks' in stack.rs (for re-entry within one evaluation it is a theorem of the model: "
             "step_len_mono, invoke_within_run_continues_as_if_returned; across evaluations, and for the continuations "
@@ -80,6 +83,14 @@ THEOREMS = [
     "Marwood.Proofs.C05.invoke_within_run_continues_as_if_returned",
     "Marwood.Vm.one_operand_site",
     "Marwood.Vm.compile_callcc_site",
+    # BpLive discharged by the strengthened verifier; the concrete instance
+    "Marwood.Vm.bpLive_of_wfs",
+    "Marwood.Vm.step_live_congruence_wf",
+    "Marwood.Vm.runN_live_congruence_wf",
+    "Marwood.Proofs.C05.step_live_congruence_verified",
+    "Marwood.Proofs.C05.invoke_run_same_result_verified",
+    "Marwood.Vm.Concrete.concreteLiveLaws",
+    "Marwood.Proofs.C05.invoke_run_same_result_concrete",
 ]
 
 
